@@ -1097,3 +1097,11 @@ Theorem agree_implies_spec_ok_kf m p s o :
   well_formed s = true -> vcard_decoder_panics s = false ->
   model_agrees m p s o = true -> spec_ok m p s o = true.
 Proof. intros W D. apply agree_implies_spec_ok; auto using dp_dt. Qed.
+
+(** the relaxed verdict only adds acceptances *)
+Lemma spec_ok_relaxed_weaker m p s o : spec_ok m p s o = true -> spec_ok_relaxed m p s o = true.
+Proof. unfold spec_ok_relaxed. intros ->. reflexivity. Qed.
+
+Lemma spec_ok_relaxed_unambiguous m p s o :
+  ambiguous s = false -> spec_ok_relaxed m p s o = spec_ok m p s o.
+Proof. unfold spec_ok_relaxed. intros ->. cbn [andb]. apply orb_false_r. Qed.
